@@ -180,6 +180,12 @@ func vReadmeOps() []vOp {
 		{q: `{ me { id: name phone } }`, known: "response-key-id-taken"},
 		{q: `{ me { t: __typename phone } }`},
 		{q: `{ getHumans { ...F friends { ...F } } } fragment F on Human { phone name }`},
+		// more of the same family, reported by sub-agents of round 6
+		{q: `{ me { node: pets { owner { name } } } }`},
+		{q: `{ a: me { ...F } b: me { ...F } } fragment F on Human { best { phone } }`},
+		{q: `{ me { name } ... on Query { me { phone } } }`},
+		{q: `{ me { ...A ...B } } fragment A on Human { best { name } } fragment B on Human { best { phone } }`},
+		{q: `query($l: [HumanIn!] = []) { findHumans(filter: $l) { name phone } }`},
 	}
 }
 
